@@ -219,24 +219,51 @@ theorem copyBuffer_some (d : Deque) (f : Nat → Nat) (buff : Buf Nat) (m : Mem)
 
 /-! ## allocator bookkeeping -/
 
-/-- same ledger balance, same fault flag (the per-operation event counters may differ) -/
-def memSame (m' m : Mem) : Prop := m'.live = m.live ∧ m'.fault = m.fault ∧ m'.libc = m.libc
+/-- same ledger balance, same fault flag, and a never-refusing allocator stays never-refusing
+(the per-operation event counters may differ) -/
+def memSame (m' m : Mem) : Prop :=
+  m'.live = m.live ∧ m'.fault = m.fault ∧ m'.libc = m.libc ∧ (m.sched = [] → m'.sched = [])
 
-theorem memSame_refl (m : Mem) : memSame m m := ⟨rfl, rfl, rfl⟩
+theorem memSame_refl (m : Mem) : memSame m m := ⟨rfl, rfl, rfl, id⟩
 theorem memSame_trans {a b c : Mem} (h1 : memSame a b) (h2 : memSame b c) : memSame a c :=
-  ⟨h1.1.trans h2.1, h1.2.1.trans h2.2.1, h1.2.2.trans h2.2.2⟩
+  ⟨h1.1.trans h2.1, h1.2.1.trans h2.2.1, h1.2.2.1.trans h2.2.2.1, fun h => h1.2.2.2 (h2.2.2.2 h)⟩
 
 theorem free_of_pos (m : Mem) (h : 0 < m.live) :
     m.free.live = m.live - 1 ∧ m.free.fault = m.fault ∧ m.free.libc = m.libc ∧ m.free.sched = m.sched := by
   unfold Mem.free; rw [if_neg (by omega)]; exact ⟨rfl, rfl, rfl, rfl⟩
 
+theorem alloc_sched_nil (m : Mem) (h : m.sched = []) : m.alloc.1 = true ∧ m.alloc.2.sched = [] :=
+  Mem.alloc_nil m h
+
 /-- a successful allocation followed (later) by one release restores the balance -/
 theorem alloc_free_same (m : Mem) (h : m.alloc.1 = true) : memSame m.alloc.2.free m := by
   obtain ⟨a1, a2, a3⟩ := Mem.alloc_fst_true m h
-  obtain ⟨f1, f2, f3, _⟩ := free_of_pos m.alloc.2 (by omega)
-  exact ⟨by omega, by rw [f2, a2], by rw [f3, a3]⟩
+  obtain ⟨f1, f2, f3, f4⟩ := free_of_pos m.alloc.2 (by omega)
+  exact ⟨by omega, by rw [f2, a2], by rw [f3, a3], fun hs => by rw [f4]; exact (alloc_sched_nil m hs).2⟩
 
-theorem alloc_refused_same (m : Mem) (h : m.alloc.1 = false) : memSame m.alloc.2 m := Mem.alloc_fst_false m h
+theorem alloc_refused_same (m : Mem) (h : m.alloc.1 = false) : memSame m.alloc.2 m := by
+  obtain ⟨a1, a2, a3⟩ := Mem.alloc_fst_false m h
+  refine ⟨a1, a2, a3, fun hs => ?_⟩
+  have := (alloc_sched_nil m hs).1
+  rw [h] at this; exact absurd this (by decide)
+
+/-- two successful allocations: two more blocks, flags kept -/
+theorem alloc2_grow (m : Mem) (h1 : m.alloc.1 = true) (h2 : m.alloc.2.alloc.1 = true) :
+    m.alloc.2.alloc.2.live = m.live + 2 ∧ m.alloc.2.alloc.2.fault = m.fault ∧
+    (m.sched = [] → m.alloc.2.alloc.2.sched = []) := by
+  obtain ⟨a1, a2, _⟩ := Mem.alloc_fst_true m h1
+  obtain ⟨b1, b2, _⟩ := Mem.alloc_fst_true m.alloc.2 h2
+  exact ⟨by omega, by rw [b2, a2], fun hs => (alloc_sched_nil _ (alloc_sched_nil m hs).2).2⟩
+
+/-- first allocation succeeds, second is refused, first released again -/
+theorem alloc_refused2_same (m : Mem) (h1 : m.alloc.1 = true) (h2 : m.alloc.2.alloc.1 = false) :
+    memSame m.alloc.2.alloc.2.free m := by
+  obtain ⟨a1, a2, a3⟩ := Mem.alloc_fst_true m h1
+  obtain ⟨b1, b2, b3⟩ := Mem.alloc_fst_false m.alloc.2 h2
+  obtain ⟨f1, f2, f3, f4⟩ := free_of_pos m.alloc.2.alloc.2 (by omega)
+  refine ⟨by omega, by rw [f2, b2, a2], by rw [f3, b3, a3], fun hs => ?_⟩
+  have := (alloc_sched_nil _ (alloc_sched_nil m hs).2).1
+  rw [h2] at this; exact absurd this (by decide)
 
 theorem max_pow_two_eq : Gen.MAX_POW_TWO = 2 ^ 31 := by decide
 
